@@ -1,4 +1,5 @@
 import TinsModel.Follower.LemmasMap
+import TinsModel.Follower.LemmasFlow
 /- Step-level facts about the follower model: shape of `stepCore` / `touch`, invariants (unique keys, limits). -/
 namespace Tins.SF
 variable {κ : Type} [DecidableEq κ]
@@ -8,7 +9,7 @@ def startable (cfg : Cfg) (p : Pkt) : Bool := (p.syn && !p.ackf) || (cfg.attach 
 
 /-- the stream created for a packet of no live connection -/
 def fresh (cfg : Cfg) (p : Pkt) : Stream :=
-  if (p.syn && !p.ackf) then Stream.ofPacket p cfg.acl else (Stream.ofPacket p cfg.acl).established
+  if (p.syn && !p.ackf) then Stream.ofPacket cfg p else (Stream.ofPacket cfg p).established
 
 /-- the stream the packet is processed on (found, or created), if any -/
 def target (cfg : Cfg) (keyOf : Pkt → κ) (F : Follower κ) (p : Pkt) : Option Stream :=
@@ -24,14 +25,17 @@ def announces (cfg : Cfg) (keyOf : Pkt → κ) (F : Follower κ) (p : Pkt) : Boo
 def after (s : Stream) (p : Pkt) : Stream := (s.processPacket p).1
 
 /-- is the stream erased at the end of `StreamFollower::process_packet` -/
-def erasedNow (cfg : Cfg) (s : Stream) (p : Pkt) : Bool := (after s p).isFinished || overLimit cfg (after s p)
+def erasedNow (cfg : Cfg) (s : Stream) (p : Pkt) : Bool := (after s p).isFinished || terminated cfg (after s p)
+
+/-- the termination reason the limits check reports -/
+def limitReason (cfg : Cfg) (s : Stream) : Reason := if overLimit cfg s then .bufferedData else .sackedSegments
 
 theorem established_sid (s : Stream) : s.established.sid = s.sid := rfl
 theorem established_isPartial (s : Stream) : s.established.isPartial = s.isPartial := rfl
 
-theorem fresh_sid (cfg : Cfg) (p : Pkt) : (fresh cfg p).sid = (Stream.ofPacket p cfg.acl).sid := by
+theorem fresh_sid (cfg : Cfg) (p : Pkt) : (fresh cfg p).sid = (Stream.ofPacket cfg p).sid := by
   unfold fresh; split <;> rfl
-theorem fresh_isPartial (cfg : Cfg) (p : Pkt) : (fresh cfg p).isPartial = (Stream.ofPacket p cfg.acl).isPartial := by
+theorem fresh_isPartial (cfg : Cfg) (p : Pkt) : (fresh cfg p).isPartial = (Stream.ofPacket cfg p).isPartial := by
   unfold fresh; split <;> rfl
 
 theorem touch_fst (cfg : Cfg) (F : Follower κ) (k : κ) (s : Stream) (p : Pkt) :
@@ -44,7 +48,9 @@ theorem touch_fst (cfg : Cfg) (F : Follower κ) (k : κ) (s : Stream) (p : Pkt) 
 theorem touch_snd (cfg : Cfg) (F : Follower κ) (k : κ) (s : Stream) (p : Pkt) :
     (touch cfg F k s p).2 =
       (s.processPacket p).2.map (liftEv k (after s p).sid) ++
-      (if overLimit cfg (after s p) then [Ev.term k (after s p).sid .bufferedData (after s p).chunks (after s p).bytes] else []) := rfl
+      (if terminated cfg (after s p) then
+         [Ev.term k (after s p).sid (limitReason cfg (after s p)) (after s p).chunks (after s p).bytes (after s p).sacked]
+       else []) := rfl
 
 theorem stepCore_eq (cfg : Cfg) (keyOf : Pkt → κ) (F : Follower κ) (p : Pkt) :
     stepCore cfg keyOf F p =
@@ -70,12 +76,14 @@ theorem stepCore_eq (cfg : Cfg) (keyOf : Pkt → κ) (F : Follower κ) (p : Pkt)
 
 /-! ### invariants -/
 
-/-- a stream within both buffering limits -/
-def within (cfg : Cfg) (s : Stream) : Prop := s.chunks ≤ cfg.maxChunks ∧ s.bytes ≤ cfg.maxBytes
+/-- a stream within the three limits: buffered chunks, buffered bytes, SACKed intervals -/
+def within (cfg : Cfg) (s : Stream) : Prop :=
+  s.chunks ≤ cfg.maxChunks ∧ s.bytes ≤ cfg.maxBytes ∧ s.sacked ≤ cfg.maxSacked
 
-theorem within_of_not_overLimit {cfg : Cfg} {s : Stream} (h : overLimit cfg s = false) : within cfg s := by
-  unfold overLimit at h
-  simp only [Bool.or_eq_false_iff, decide_eq_false_iff_not] at h
+theorem within_of_not_terminated {cfg : Cfg} {s : Stream} (h : terminated cfg s = false) : within cfg s := by
+  unfold terminated overSacked overLimit at h
+  simp only [Bool.or_eq_false_iff, Bool.and_eq_false_iff, Bool.not_eq_false', decide_eq_false_iff_not,
+    Bool.or_eq_true, decide_eq_true_eq] at h
   unfold within; omega
 
 theorem mem_store {m : List (κ × Stream)} {k : κ} {s : Stream} {e : κ × Stream} :
@@ -115,7 +123,7 @@ theorem step_within (cfg : Cfg) (keyOf : Pkt → κ) (lt : κ → κ → Bool) (
   · exact h e h1
   · unfold erasedNow at hr
     simp only [Bool.or_eq_false_iff] at hr
-    exact within_of_not_overLimit hr.2
+    exact within_of_not_terminated hr.2
 
 theorem run_within (cfg : Cfg) (keyOf : Pkt → κ) (lt : κ → κ → Bool) (h : List Pkt) (F : Follower κ)
     (hF : ∀ e ∈ F.streams, within cfg e.2) : ∀ e ∈ (run cfg keyOf lt F h).1.streams, within cfg e.2 := by
